@@ -108,6 +108,11 @@ impl Property for C12 {
                     if len <= symlinked_upto && !emit(json!({"kind": "buffer-session", "events": ev, "dotted": true, "cyclic": len % 2 == 0})) {
                         return;
                     }
+                    // the same session with an included document whose name does not end in .td (a generated
+                    // .inc file): a document like any other
+                    if len <= symlinked_upto && !emit(json!({"kind": "buffer-session", "events": ev, "inc_name": true})) {
+                        return;
+                    }
                     let mut k = len;
                     let mut done = false;
                     loop {
@@ -238,9 +243,13 @@ impl Property for C12 {
         // (with i.td in the library, r.td names it with the library's directory)
         let lib = s.tw.library_subdir().map(|d| d.to_string());
         let dotted = case["dotted"].as_bool() == Some(true);
+        let inc_name = case["inc_name"].as_bool() == Some(true);
+        let iname: &'static str = if inc_name { "i.inc" } else { "i.td" };
+        let name = |doc: usize| -> &'static str { if doc == 0 { "r.td" } else { iname } };
         let in_lib = |t: String| match &lib {
             Some(d) => t.replace("include \"i.td\"", &format!("include \"{d}/i.td\"")),
             None if dotted => t.replace("include \"i.td\"", "include \"./i.td\"").replace("include \"r.td\"", "include \".//r.td\""),
+            None if inc_name => t.replace("include \"i.td\"", "include \"i.inc\""),
             None => t,
         };
         let disk_i = if cyclic { DISK_I_CYCLIC } else { DISK_I };
@@ -250,8 +259,8 @@ impl Property for C12 {
         let disk_i_text = if dotted { in_lib(disk_i.to_string()) } else { disk_i.to_string() };
         let disk_i = disk_i_text.as_str();
         if !no_disk_i {
-            s.tw.write("i.td", disk_i);
-            model.insert("i.td".into(), disk_i.into());
+            s.tw.write(iname, disk_i);
+            model.insert(iname.into(), disk_i.into());
         }
         let external = case["external_writes"].as_bool() == Some(true);
         let mut disk: BTreeMap<String, String> = model.clone();
@@ -312,7 +321,7 @@ impl Property for C12 {
                             (true, true) => "include \"r.td\"\nclass DiskJ { int a = 1; }\n".to_string(),
                             (false, _) => disk_i.to_string(),
                         };
-                        for (n, t) in [("r.td", in_lib(new_r.to_string())), ("i.td", new_i)] {
+                        for (n, t) in [("r.td", in_lib(new_r.to_string())), (iname, new_i)] {
                             s.tw.write(n, &t);
                             disk.insert(n.to_string(), t.clone());
                             if !s.opened.contains(n) {
@@ -337,7 +346,7 @@ impl Property for C12 {
             };
             let doc = if b == 4 { 0 } else { doc };
             let text = if doc == 0 || dotted { in_lib(text) } else { text };
-            if doc == 0 && s.opened.contains("i.td") && model.get("i.td") != disk.get("i.td") {
+            if doc == 0 && s.opened.contains(iname) && model.get(iname) != disk.get(iname) {
                 nontrivial = true;
             }
             model.insert(name(doc).to_string(), text.clone());
@@ -371,7 +380,7 @@ impl Property for C12 {
                     (true, true) => "include \"r.td\"\nclass DiskJ { int a = 1; }\n".to_string(),
                     (false, _) => disk_i.to_string(),
                 };
-                for (n, t) in [("r.td", in_lib(new_r.to_string())), ("i.td", new_i)] {
+                for (n, t) in [("r.td", in_lib(new_r.to_string())), (iname, new_i)] {
                     s.tw.write(n, &t);
                     disk.insert(n.to_string(), t.clone());
                     if !s.opened.contains(n) {
